@@ -48,6 +48,23 @@ func GenC14Client(r *RNG) *CliPlan {
 		p.Reqs = append(p.Reqs, q)
 		p.Lanes = append(p.Lanes, l)
 	}
+	if r.Intn(3) == 0 {
+		// graceful shutdown in mid-download: once every request has arrived the server announces that it will take no
+		// more (GOAWAY with a last-stream-id that covers them all) and goes on serving; the streams left standing still
+		// need their credit
+		g := Lane{Name: "goaway", After: -1}
+		for k := 0; k < n; k++ {
+			g.Ops = append(g.Ops, Op{Kind: "wait-req", Len: k, Pad: -1, TableSize: -1})
+		}
+		ga := Op{Kind: "goaway", Code: 0, Incr: 1<<31 - 1, Pad: -1, TableSize: -1}
+		if r.Intn(2) == 0 {
+			ga.Incr = 0
+			ga.LaneRef = -1 // the highest stream id seen so far
+		}
+		g.Ops = append(g.Ops, ga)
+		p.Lanes = append(p.Lanes, g)
+		p.Trail += "/goaway"
+	}
 	p.MaxSteps = 600000
 	return p
 }
